@@ -879,7 +879,7 @@ pub fn run(ctx: &Ctx) -> i32 {
     if all_f32 {
         add(all_f32_lane(ctx));
     }
-    let (shards, cases) = ctx.tier.pick((8, 2500), (64, 30_000));
+    let (shards, cases) = ctx.tier.pick((16, 10000), (64, 30_000));
     add(run_shards(ctx, "trees", shards, cases, case_strategy, check_tree));
     crate::fuzzrun::golden("json_ser", &mut stats, &mut viol);
     if ctx.tier == vcommon::ev::Tier::Thorough {
